@@ -49,12 +49,16 @@ Definition property (sc : scen) (o : obs) : verdict :=
   (* 6: the pumps are gone, the connection is Terminated, done is closed and the peer saw the stream end *)
   let p6 := negb (conclusive && (o_stuck o =? 0) && (o_panics o =? 0) && Nat.leb 1 ncas)
             || ((o_state o =? 4) && (o_doneclosed o =? 1) && (has_rst sc || (o_eof o =? 1))) in
+  let p6 := p6 && (o_nofin o =? 0) in
+  (* 10: the WaitGroup joins the pumps before the teardown: no pump event after wg.Wait returned *)
+  let p10 := (o_pumpafterwait o =? 0) in
   vjoin (check_that p1 (VPropFail 1))
  (vjoin (check_that p2 (VPropFail 2))
  (vjoin (check_that p3 (VPropFail 3))
  (vjoin (check_that p4 (VPropFail 4))
  (vjoin (check_that p5 (VPropFail 5))
-        (check_that p6 (VPropFail 6)))))).
+ (vjoin (check_that p6 (VPropFail 6))
+        (check_that p10 (VPropFail 10))))))).
 
 (* listener case: input = (2 nlisteners ndials drain seed)
    observed = (returned panics serve_left handed dialed_ok dial_after_ok backlog_closed inconclusive stuck) *)
@@ -71,9 +75,23 @@ Definition listener_check (input observed : sx) : verdict :=
   | _, _ => VBad
   end.
 
+(* burst-race case: input = (3 trials nclosers nsenders seed)
+   observed = (trials panics multicas multierr noerr lateaccepted notreturned notterminated) *)
+Definition burst_check (input observed : sx) : verdict :=
+  match sx_ints input, sx_ints observed with
+  | Some [_; _; _; _; _], Some [trials; panics; multicas; multierr; noerr; lateacc; notret; notterm] =>
+      vjoin (check_that (panics =? 0) (VPropFail 1))
+     (vjoin (check_that (lateacc =? 0) (VPropFail 3))
+     (vjoin (check_that ((multierr =? 0) && (negb (notret =? 0) || (noerr =? 0))) (VPropFail 4))
+     (vjoin (check_that (multicas =? 0) (VPropFail 5))
+            (check_that (0 <=? trials) (VMismatch 9)))))
+  | _, _ => VBad
+  end.
+
 Definition check (c : sx) : verdict :=
   match c with
   | SList [SList (SInt 2 :: _) as input; observed] => listener_check input observed
+  | SList [SList (SInt 3 :: _) as input; observed] => burst_check input observed
   | SList [input; observed] =>
       match decode_scen input, decode_obs observed with
       | Some sc, Some o => vjoin (property sc o) (correspondence sc o)
